@@ -116,6 +116,16 @@ Walk(d, off) ==
            all == a.dep \o b.dep
        IN [n |-> a.n + b.n, h |-> h, dep |-> [i \in DOMAIN all |-> IF i = c - off THEN h ELSE all[i]]]
 Deps(d) == Walk(d, 0).dep
+(* the training-data creator (depccg/tools/data.py) writes "head-first" dependencies: the head of every binary node is its left child *)
+RECURSIVE HeadLeft(_)
+HeadLeft(d) == IF d.k = "L" THEN d ELSE [d EXCEPT !.hl = TRUE, !.kids = [i \in DOMAIN d.kids |-> HeadLeft(d.kids[i])]]
+(* one sample of convert_auto_to_json: the words (bracket escapes undone) joined by blanks, the leaf categories, the dependencies *)
+TrainFails(d, s) ==
+  LET ls == LeafSeq(d) IN
+  IF Len(s.words) # Len(ls) \/ Len(s.cats) # Len(ls) \/ Len(s.deps) # Len(ls) THEN {"shape"}
+  ELSE (IF \A i \in DOMAIN ls : s.words[i] = Norm(AttrCP(ls[i].tok, "word")) THEN {} ELSE {"words"})
+       \cup (IF \A i \in DOMAIN ls : s.cats[i] = CatText(ls[i].cat) THEN {} ELSE {"cats"})
+       \cup (IF s.deps = Deps(HeadLeft(d)) THEN {} ELSE {"deps"})
 DLeaves(d) == LeafSeq(d)
 
 ConllFails(d, rows) ==
